@@ -66,4 +66,158 @@ theorem reach_cnt_pos (o : Nat) (N : Mat) (cnts : List Nat) (hR : Reach o N cnts
   · exact h1 j hjo
   · exact h3 j (by omega) hj
 
+
+theorem argsort_le_one (keys : List Int) (h : keys.length ≤ 1) :
+    argsort keys = List.range keys.length := by
+  match keys, h with
+  | [], _ => simp [argsort]
+  | [a], _ => simp [argsort, List.zipIdx]
+
+/-- the sort key of plus row `i` -/
+theorem plusKey_getD (o : Nat) (N : Mat) (cnts : List Nat) (hR : Reach o N cnts)
+    (hP : permC N ≠ 0) (i : Nat) (hi : i < cnts.length) :
+    ((N.drop o).map (fun r => -(firstPos r.reverse : Int))).getD i 0
+      = -(((o + cnts.length) - (o + cnts.getD i 0) : Nat) : Int) := by
+  have hlen := hR.hlen
+  have hpl := hR.plus i hi
+  rw [hlen] at hpl
+  have hc := reach_cnt_pos o N cnts hR hP i hi
+  have hfp := firstPos_reverse_plus o _ _ _ hpl hc
+  have hi' : o + i < N.length := by omega
+  simp only [List.getD_eq_getElem?_getD, List.getElem?_map, List.getElem?_drop,
+    List.getElem?_eq_getElem hi', Option.map_some, Option.getD_some] at hfp ⊢
+  rw [hfp]
+
+set_option maxHeartbeats 400000 in
+theorem sortedReach_of (o : Nat) (N : Mat) (cnts : List Nat) (hR : Reach o N cnts)
+    (hP : permC N ≠ 0) :
+    ∃ cnts', SortedReach o
+      ((argsort ((N.take o).map (fun r => (firstPos r : Int)))
+        ++ (argsort ((N.drop o).map (fun r => -(firstPos r.reverse : Int)))).map
+            (fun i => i + o)).map (fun i => N.getD i [])) cnts' := by
+  have hlen := hR.hlen
+  have ho := hR.ho
+  have hperm := sortIdx_perm_aux o N
+  -- the minus part
+  have hk1 : ((N.take o).map (fun r => (firstPos r : Int))).length = o := by
+    simp only [List.length_map, List.length_take]; omega
+  have h1 : argsort ((N.take o).map (fun r => (firstPos r : Int))) = List.range o := by
+    rw [argsort_le_one _ (by omega), hk1]
+  rw [h1] at hperm ⊢
+  -- the plus part
+  generalize hk2 : ((N.drop o).map (fun r => -(firstPos r.reverse : Int))) = k2 at hperm ⊢
+  have hk2len : k2.length = cnts.length := by
+    rw [← hk2]; simp only [List.length_map, List.length_drop]; omega
+  have h2p : (argsort k2).Perm (List.range cnts.length) := by
+    have := argsort_perm k2; rwa [hk2len] at this
+  have h2s := argsort_sorted k2
+  have hkey : ∀ i, i < cnts.length →
+      k2.getD i 0 = -(((o + cnts.length) - (o + cnts.getD i 0) : Nat) : Int) := by
+    intro i hi; rw [← hk2]; exact plusKey_getD o N cnts hR hP i hi
+  generalize hidx : argsort k2 = idx2 at hperm h2p h2s ⊢
+  have hidxlen : idx2.length = cnts.length := by simpa using h2p.length_eq
+  have hmem : ∀ k (hk : k < idx2.length), idx2[k] < cnts.length := by
+    intro k hk
+    exact List.mem_range.mp (h2p.mem_iff.mp (List.getElem_mem hk))
+  -- rows of the sorted matrix
+  have hSlen : ((List.range o ++ idx2.map (fun i => i + o)).map (fun i => N.getD i [])).length
+      = o + cnts.length := by
+    simp [hidxlen]
+  have hSplus : ∀ k (hk : k < idx2.length),
+      ((List.range o ++ idx2.map (fun i => i + o)).map (fun i => N.getD i [])).getD (o + k) []
+        = N.getD (o + idx2[k]) [] := by
+    intro k hk
+    rw [List.map_append, List.getD_eq_getElem?_getD,
+      List.getElem?_append_right (by simp)]
+    simp [hk, Nat.add_comm]
+  have hcnt' : ∀ k (hk : k < idx2.length),
+      (idx2.map (fun i => cnts.getD i 0)).getD k 0 = cnts.getD idx2[k] 0 := by
+    intro k hk
+    simp [List.getD_eq_getElem?_getD, hk]
+  have hsorted : (idx2.map (fun i => cnts.getD i 0)).Pairwise (fun a b => a ≤ b) := by
+    rw [List.pairwise_map]
+    refine List.Pairwise.imp_of_mem ?_ h2s
+    intro a b ha hb hab
+    have ha' : a < cnts.length := List.mem_range.mp (h2p.mem_iff.mp ha)
+    have hb' : b < cnts.length := List.mem_range.mp (h2p.mem_iff.mp hb)
+    rw [hkey a ha', hkey b hb'] at hab
+    have h1a := (hR.plus a ha').2.1
+    have h1b := (hR.plus b hb').2.1
+    rw [hlen] at h1a h1b
+    omega
+  have hS_perm : ((List.range o ++ idx2.map (fun i => i + o)).map (fun i => N.getD i [])).Perm N := by
+    have := hperm.map (fun i => N.getD i [])
+    have h3 : (List.range N.length).map (fun i => N.getD i []) = N := by
+      apply List.ext_getElem
+      · simp
+      · intro i h1 h2
+        simp [List.getD_eq_getElem?_getD, List.getElem?_eq_getElem h2]
+    rwa [h3] at this
+  refine ⟨idx2.map (fun i => cnts.getD i 0), ⟨⟨ho, ?_, ?_, ?_⟩, hsorted, ?_⟩⟩
+  · simp [hidxlen]
+  · intro ho1
+    subst ho1
+    have := hR.minus rfl
+    rw [hSlen, ← hlen]
+    simpa [List.getD_eq_getElem?_getD] using this
+  · intro k hk
+    rw [List.length_map] at hk
+    rw [hSlen, hSplus k hk, hcnt' k hk, ← hlen]
+    exact hR.plus _ (hmem k hk)
+  · -- Hall, from the non-vanishing permanent
+    intro k hk
+    rw [List.length_map] at hk
+    by_contra hlt
+    rw [hcnt' k hk] at hlt
+    apply hP
+    rw [← permC_perm hS_perm]
+    generalize hS : ((List.range o ++ idx2.map (fun i => i + o)).map (fun i => N.getD i [])) = S
+      at hSlen hSplus
+    unfold permC
+    have hsplit : S = S.take (o + k + 1) ++ S.drop (o + k + 1) := (List.take_append_drop _ _).symm
+    have hml : S.length = o + k + 1 + (cnts.length - k - 1) := by rw [hSlen]; omega
+    rw [hml]
+    conv => lhs; arg 2; rw [hsplit]
+    apply permN_narrow_zero (o + k) (cnts.length - k - 1) _ _ (by rw [List.length_drop, hSlen]; omega)
+    intro r hr c hc1 hc2
+    obtain ⟨i, hi, rfl⟩ := List.mem_iff_getElem.mp hr
+    rw [List.length_take] at hi
+    rw [List.getElem_take]
+    have hiS : i < S.length := by omega
+    rcases Nat.lt_or_ge i o with hio | hio
+    · -- the minus row
+      have ho1 : o = 1 := by omega
+      subst ho1
+      have hi0 : i = 0 := by omega
+      subst hi0
+      have hmin := hR.minus rfl
+      have hrow : S[0] = N.getD 0 [] := by
+        subst hS
+        simp [List.getD_eq_getElem?_getD]
+      rw [hrow]
+      exact hmin.2.2 c (by omega) (by omega)
+    · obtain ⟨j, rfl⟩ : ∃ j, i = o + j := ⟨i - o, by omega⟩
+      have hj : j < idx2.length := by omega
+      have hjk : j ≤ k := by omega
+      have hrow := hSplus j hj
+      rw [List.getD_eq_getElem?_getD, List.getElem?_eq_getElem hiS] at hrow
+      simp only [Option.getD_some] at hrow
+      rw [hrow]
+      have hpl := hR.plus _ (hmem j hj)
+      have hle : cnts.getD idx2[j] 0 ≤ cnts.getD idx2[k] 0 := by
+        rcases Nat.lt_or_ge j k with hjk' | hjk'
+        · have := List.pairwise_iff_getElem.mp hsorted j k (by simpa using hj) (by simpa using hk) hjk'
+          simpa using this
+        · have : j = k := by omega
+          subst this; exact le_refl _
+      exact hpl.2.2.2.2 c (by omega) (by omega)
+
+/-- **The preparation phase sorts a reachable idle block with non-zero permanent into the sorted
+    reachable form** (counts non-decreasing, Hall's condition `k+1 ≤ cnt_k`). -/
+theorem prepare_sortedReach (off : Nat) (W : Mat) (locks : List Bool) (cnts : List Nat)
+    (hR : Reach (prepare off W locks).offset (idle W locks) cnts)
+    (hP : permC (idle W locks) ≠ 0) :
+    ∃ cnts', SortedReach (prepare off W locks).offset (prepare off W locks).sorted cnts' :=
+  sortedReach_of _ _ cnts hR hP
+
 end Infretis.Perm
